@@ -42,6 +42,16 @@ fn has_replace_with(op: &Op) -> bool {
     }
 }
 
+/// A handle chain that removes its element on the way (and may be interrupted by a later step
+/// of the same chain): the chain's own key may legitimately be absent afterwards.
+fn chain_removes(op: &Op) -> bool {
+    match op {
+        Op::Entry { chain, .. } => chain.iter().any(|s| matches!(s, EStep::AndReplaceNone | EStep::OccRemove | EStep::OccRemoveEntry | EStep::OccReplaceWithNone)),
+        Op::RawMut { chain, .. } => chain.iter().any(|s| matches!(s, RStep::AndReplaceNone | RStep::OccRemove | RStep::OccRemoveEntry | RStep::OccReplaceWithNone)),
+        _ => false,
+    }
+}
+
 fn extra_legit(op: &Op) -> BTreeMap<u32, Vec<u32>> {
     let mut m: BTreeMap<u32, Vec<u32>> = BTreeMap::new();
     if let Op::Extend { items, .. } | Op::FromIter { items, .. } = op {
@@ -81,6 +91,7 @@ fn judge<K: KeyT, V: ValT>(
     before: &(Vec<MapModel>, Vec<SetModel>),
     after: &(Vec<MapModel>, Vec<SetModel>),
     old_len_before: &[usize],
+    chain_removed: Option<(usize, u32)>,
     partial: &BTreeMap<u32, Vec<u32>>,
 ) -> Vec<Anomaly> {
     let mut out = Vec::new();
@@ -156,20 +167,24 @@ fn judge<K: KeyT, V: ValT>(
                     continue;
                 }
                 if oo.is_none() {
+                    if chain_removed == Some((mi, kv)) {
+                        continue;
+                    }
                     lost.push(kv);
                 } else {
                     out.push(anomaly("fault-illegitimate-value", idx, op, format!("map {}: key {} holds {:?}; before the call {:?}, after an uninterrupted call {:?}", mi, kv, oo, bb, aa)));
                 }
             }
             let bulk = shrink || matches!(op, Op::Reserve { .. } | Op::TryReserve { .. } | Op::Extend { .. } | Op::FromIter { .. } | Op::CloneTo { .. } | Op::CloneFrom { .. });
-            let _ = old_len_before;
             let allowed = match site {
-                // elements being relocated: at most R per single-key call, anything for bulk calls
+                // a panicking Hash may lose elements *being relocated*: none if this call
+                // relocates nothing (no resize in flight and none started by it), at most R per
+                // single-key call, anything for bulk calls
                 Site::Hash => {
                     if bulk {
                         b.len()
                     } else {
-                        8
+                        old_len_before[mi].min(8)
                     }
                 }
                 _ => {
@@ -268,8 +283,7 @@ fn judge<K: KeyT, V: ValT>(
             }
             let old_len = old_len_before[w.maps.len() + si];
             let bulk = shrink || matches!(op, Op::SReserve { .. } | Op::STryReserve { .. } | Op::SExtend { .. } | Op::SFromIter { .. } | Op::SCloneTo { .. } | Op::SCloneFrom { .. });
-            let _ = old_len;
-            let allowed = if site == Site::Hash { if bulk { b.len() } else { 8 } } else { 0 };
+            let allowed = if site == Site::Hash { if bulk { b.len() } else { old_len.min(8) } } else { 0 };
             if lost > allowed {
                 out.push(anomaly("fault-lost-elements", idx, op, format!("set {}: {} elements lost by a panic at {} (allowed {})", si, lost, site.name(), allowed)));
             }
@@ -377,7 +391,17 @@ pub fn run_c07<K: KeyT, V: ValT>(spec: &RunSpec, step_rng_seed: u64) -> RunOutco
                 None => return out,
             };
             let before = snapshot(&w);
-            let old_lens: Vec<usize> = w.maps.iter().map(|s| s.m.verif_state()).chain(w.sets.iter().map(|s| s.s.verif_state())).map(|s| if s.split { s.old_len } else { 0 }).collect();
+            let old_lens: Vec<usize> = w
+                .maps
+                .iter()
+                .map(|s| (s.m.verif_state(), s.m.len(), s.m.capacity()))
+                .chain(w.sets.iter().map(|s| (s.s.verif_state(), s.s.len(), s.s.capacity())))
+                .map(|(st, len, cap)| if st.split { st.old_len } else if len == cap { len } else { 0 })
+                .collect();
+            let chain_removed: Option<(usize, u32)> = match op {
+                Op::Entry { m, k, .. } | Op::RawMut { m, k, .. } if chain_removes(op) => Some((*m as usize, w.maps[*m as usize].resolve_key(k))),
+                _ => None,
+            };
             let so = w.exec(i, op, Some(j), false);
             crash_points += 1;
             out.steps += 1;
@@ -397,7 +421,7 @@ pub fn run_c07<K: KeyT, V: ValT>(spec: &RunSpec, step_rng_seed: u64) -> RunOutco
                     // anomalies raised by the interrupted step itself (ledger, allocator) count
                     anomalies.extend(so.anomalies.into_iter());
                     let partial: BTreeMap<u32, Vec<u32>> = BTreeMap::new();
-                    anomalies.extend(judge(&mut w, i, op, site, &before, &after, &old_lens, &partial));
+                    anomalies.extend(judge(&mut w, i, op, site, &before, &after, &old_lens, chain_removed, &partial));
                 }
                 None => {
                     if so.fatal {
@@ -414,7 +438,7 @@ pub fn run_c07<K: KeyT, V: ValT>(spec: &RunSpec, step_rng_seed: u64) -> RunOutco
                         a.detail = format!("[panic injected at callback {} ({}) of step {}] {}", j, site.name(), i, a.detail);
                         out.violation = Some(a);
                         // record the exact crash point for the replay file
-                        out.fault = Some(Fault { at: i, nth: j });
+                        out.fault = Some(Fault { at: i, nth: j, site: None });
                     }
                     stop = true;
                 } else {
@@ -444,7 +468,7 @@ pub fn run_c07<K: KeyT, V: ValT>(spec: &RunSpec, step_rng_seed: u64) -> RunOutco
                             let mut a = a;
                             a.detail = format!("[after a panic injected at callback {} ({}) of step {} ({})] {}", j, site.name(), i, op.kind(), a.detail);
                             out.violation = Some(a);
-                            out.fault = Some(Fault { at: i, nth: j });
+                            out.fault = Some(Fault { at: i, nth: j, site: None });
                         }
                         tail_failed = true;
                     } else {
@@ -465,7 +489,7 @@ pub fn run_c07<K: KeyT, V: ValT>(spec: &RunSpec, step_rng_seed: u64) -> RunOutco
                         let mut a = a;
                         a.detail = format!("[teardown after a panic injected at callback {} ({}) of step {}] {}", j, site.name(), i, a.detail);
                         out.violation = Some(a);
-                        out.fault = Some(Fault { at: i, nth: j });
+                        out.fault = Some(Fault { at: i, nth: j, site: None });
                     }
                     return out;
                 }
